@@ -334,6 +334,7 @@ def check(chk):
 
     _stack_reads(chk, repo)
     _interpolation(chk, repo)
+    _correction_profile_choice(chk, repo)
     _suppression(chk, repo)
     _split_symmetry(chk, repo)
     _direct_fade(chk, repo)
@@ -439,6 +440,41 @@ def check(chk):
                                  (isinstance(x.ops[0], ast.Lt) and src(x.comparators[0]) == "self.dirty_schedule[0][0]") for x in cmp_)
         chk.ob("BATCH-3", "`earlier` compares the first scheduled time with the new step's time", okc, g.where(), construct=g.ident,
                text="earliest comparison")
+
+
+def _correction_profile_choice(chk, repo):
+    """CORR-2: the colour-correction profile of a light is its own (`color_correction_profile`) whenever it names one, the machine default
+    (`light_settings: default_color_correction_profile`) only otherwise, and none if neither exists: the table every commanded brightness goes
+    through is the one the light was configured with."""
+    f = repo.func(LT, "Light._initialize")
+    chk.analysed(f)
+    cfg = f.cfg()
+    st = [n for n in cfg.nodes if n.kind == "stmt" and isinstance(n.ast, ast.Assign) and src(n.ast.targets[0]) == "profile_name"]
+    chk.need(len(st) >= 2, "CORR-2", "Light._initialize chooses the colour-correction profile", f)
+    OWN = "self.config['color_correction_profile']"
+    DFL = "self.machine.config['light_settings']['default_color_correction_profile']"
+    for n in st:
+        v = src(n.ast.value).replace('"', "'")
+        g = cfg.guards_at(n.id)
+        own_named = g.get(OWN + " is not None")
+        if v == OWN:
+            ok = own_named is True or not g
+            # an unconditional first binding is fine only if no later binding can replace a named own profile
+            if not g:
+                ok = all(cfg.guards_at(m.id).get(OWN + " is not None") is False or cfg.guards_at(m.id).get(OWN + " is None") is True or
+                         cfg.guards_at(m.id).get("not " + OWN) is True or cfg.guards_at(m.id).get(OWN) is False for m in st if m is not n)
+            what = "the light's own profile is used when it names one"
+        elif v == DFL:
+            ok = own_named is False or g.get(OWN + " is None") is True or g.get(OWN) is False
+            what = "the machine default profile is used only when the light names none"
+        else:
+            ok = v == "None" and own_named is False
+            what = "no profile only when neither is configured"
+        chk.ob("CORR-2", what, ok, f.where(n.ast), detail="profile_name = %s under %s" % (v, sorted((k, val) for k, val in g.items() if "profile" in k)[:3]),
+               construct=f.ident, text="correction profile choice " + v[-40:])
+    ap = [n for n, c in cfg.calls_named("_set_color_correction_profile")]
+    ok = len(ap) == 1 and cfg.guards_at(ap[0].id).get("profile_name") is True
+    chk.ob("CORR-2", "the chosen profile is the one installed", ok, f.where(), construct=f.ident, text="correction profile installed")
 
 
 def _interpolation(chk, repo):
@@ -823,6 +859,7 @@ def battery():
         M("same-target shortcut compares with the remembered start colour", LT, "target_color == self._last_fade_target[2] and", "target_color == self._last_fade_target[0] and", "SUPP-1"),
         M("fade-ended test reads the remembered start time", LT, "(self._last_fade_target[3] < 0 or self._last_fade_target[3] < self.machine.clock.get_time())", "(self._last_fade_target[1] < 0 or self._last_fade_target[1] < self.machine.clock.get_time())", "SUPP-1"),
         M("finished fade wipes the task handle", LI, "            if target_fade_ms <= max_fade_ms:\n                return\n            await asyncio.sleep(interval)", "            if target_fade_ms <= max_fade_ms:\n                self.task = None\n                return\n            await asyncio.sleep(interval)", "PAIR-23"),
+        M("machine default correction profile overrides the light's own", LT, "            if self.config['color_correction_profile'] is not None:\n                profile_name = self.config['color_correction_profile']\n            elif 'light_settings' in self.machine.config and \\", "            profile_name = self.config['color_correction_profile']\n            if 'light_settings' in self.machine.config and \\", "CORR-2"),
     ]
 
 
